@@ -209,7 +209,13 @@ impl GroupStorage for MdkSqliteStorage {
 
             let messages_iter = stmt
                 .query_map(
-                    params![mls_group_id.as_slice(), limit as i64, offset as i64],
+                    // An offset beyond i64::MAX would wrap to a negative value, which SQLite
+                    // treats as 0 (returning the first page instead of an empty one).
+                    params![
+                        mls_group_id.as_slice(),
+                        limit as i64,
+                        i64::try_from(offset).unwrap_or(i64::MAX)
+                    ],
                     db::row_to_message,
                 )
                 .map_err(into_group_err)?;
